@@ -2,7 +2,7 @@
 SHELL := /bin/bash
 COQ := coq
 MODEL := build/model
-DRIVERS := conv heap_driver motion_driver ptc_driver seed_driver sol_driver grid_driver nn_driver codec_driver vss_driver ledger_driver pis_driver path_driver control_driver phs_driver eit_driver gnatfull_driver rrt_driver
+DRIVERS := conv heap_driver motion_driver ptc_driver seed_driver sol_driver grid_driver nn_driver codec_driver vss_driver ledger_driver pis_driver path_driver control_driver phs_driver eit_driver gnatfull_driver rrt_driver lpa_driver
 .PHONY: setup proofs model ompl clean
 setup: proofs model ompl
 proofs:
